@@ -143,6 +143,15 @@ class TStepInject(IntegratorStep):
         d_s[d_idx] = (11.0*d_s[d_idx] + d_au[d_idx] + 8.0*t + 1600.0*dt + 1.0) % 1000003.0
 
 
+class TStepPartial(IntegratorStep):
+    """a stepper that defines one stage only (no initialize, nothing for the later stages)"""
+    def __init__(self, c=1.0):
+        self.c = c
+
+    def stage1(self, d_idx, d_s, d_au, t, dt):
+        d_s[d_idx] = (41.0*d_s[d_idx] + d_au[d_idx] + 8.0*t + 1600.0*dt + self.c) % 1000003.0
+
+
 class TStepB(IntegratorStep):
     """a second stepper class (different per-array steppers): no py hooks, other constants"""
     def __init__(self, c=2.0):
